@@ -139,6 +139,13 @@ static std::vector<Str> initial_states(int size) {
     auto add = [&](const Str &s) { if (ref::is_uri_reference(s) && seen.insert(s).second) v.push_back(s); };
     for (auto &p : rl) { add(p); add("s:" + p); }
     for (auto &p : ab) { add(p); add("s:" + p); add("//h" + p); add("s://H" + p + "?q#f"); }
+    // percent-encoded delimiters in every component (decoding one of them would move a component boundary when the text is read back)
+    for (auto t : { "%2F", "%2f", "%3A", "%3a", "%40", "%3F", "%23", "%5B", "%5D", "%25", "%2E", "%2e%2E" }) {
+        Str x = t; add("//u" + x + "x@h/"); add("//h" + x + "x/p"); add("//" + x); add("/a" + x + "b"); add("a" + x + "b/c"); add(x + "/b"); add("s:" + x + "b"); add("?" + x); add("#" + x); add("s://u@h" + x + ":1/" + x + "?" + x + "#" + x);
+    }
+    // deeper paths over a reduced alphabet: runs of empty segments behind dot segments
+    if (size >= 1) { std::vector<Str> d0 = path_token_paths({ "", ".", "..", "b" }, n + 2, 0), d1 = path_token_paths({ "", ".", "..", "b" }, n + 2, 1);
+        for (auto &p : d0) { add(p); add("s:" + p); } for (auto &p : d1) { add(p); add("s:" + p); add("//h" + p); } }
     return v;
 }
 
